@@ -455,12 +455,12 @@ fn decode(cfg: &Config, instrs: &[llir::RawInstr]) -> Result<String, String> {
 
 // ---------------------------------------------------------------------------------------------
 
-struct Outcome { case: Option<String>, oracle_fail: Vec<String>, rejected: Option<String> }
+struct Outcome { case: Option<String>, run_case: Option<String>, oracle_fail: Vec<String>, rejected: Option<String> }
 
 fn run_case(cfg: &Config, text: &str, rng: &mut Rng, nvals: usize) -> Outcome {
     let mut scope = truth::Builder::new().capture_diagnostics(true).build();
     let mut truth = scope.truth();
-    let mut out = Outcome { case: None, oracle_fail: vec![], rejected: None };
+    let mut out = Outcome { case: None, run_case: None, oracle_fail: vec![], rejected: None };
     if truth.apply_mapfile_str(&cfg.mapfile(), Game::Th10).is_err() {
         out.rejected = Some(format!("mapfile: {}", truth.get_captured_diagnostics().unwrap_or_default())); return out;
     }
@@ -540,15 +540,29 @@ fn run_case(cfg: &Config, text: &str, rng: &mut Rng, nvals: usize) -> Outcome {
         // registers whose final value must agree: everything mentioned in the source, and every non-scratch register
         let mentioned: Vec<i32> = INT_SCRATCH.iter().chain(FLOAT_SCRATCH.iter()).chain(INT_OTHER.iter()).chain(FLOAT_OTHER.iter())
             .copied().filter(|r| text.contains(&format!("REG[{}]", r)) || !(cfg.pool_int.contains(r) || cfg.pool_float.contains(r))).collect();
-        for _ in 0..nvals {
-            let mut vm = AstVm::new().with_max_iterations(2000).with_difficulty(rng.below(4) as u32);
+        let mut run_parts: Vec<String> = vec![];
+        for ival in 0..nvals {
+            let vm_difficulty = rng.below(4) as u32;
+            let mut vm = AstVm::new().with_max_iterations(2000).with_difficulty(vm_difficulty);
             for &r in INT_SCRATCH.iter().chain(INT_OTHER.iter()) { let v = if rng.chance(1, 2) { rng.range(-7, 7) as i32 } else { *rng.pick(&INTS) }; vm.set_reg(RegId(r), ScalarValue::Int(v)); }
             for &r in FLOAT_SCRATCH.iter().chain(FLOAT_OTHER.iter()) { let b = *rng.pick(&FLOATS); vm.set_reg(RegId(r), ScalarValue::Float(f32::from_bits(b))); }
             let (mut old_vm, mut new_vm) = (vm.clone(), vm.clone());
             let ctx = truth.ctx();
+            let init_coq: String = {
+                let all: Vec<i32> = INT_SCRATCH.iter().chain(FLOAT_SCRATCH.iter()).chain(INT_OTHER.iter()).chain(FLOAT_OTHER.iter()).copied().collect();
+                all.iter().filter_map(|&r| vm.get_reg(RegId(r)).map(|v| format!("({}, {})", r, value_coq(&v)))).collect::<Vec<_>>().join("; ")
+            };
             let r_old = catch(|| { old_vm.run(&old_stmts, ctx); });
-            if r_old.is_err() { continue; }  // e.g. a run-time division by zero in the source itself
+            if r_old.is_err() {
+                // e.g. a run-time division by zero in the source itself
+                if ival < 2 { run_parts.push(format!("({}%nat, [{}], RFail, RSkip)", vm_difficulty, init_coq)); }
+                continue;
+            }
             let r_new = catch(|| { new_vm.run(&new_stmts, ctx); });
+            if ival < 2 {
+                let tgt = if r_new.is_ok() { vm_coq(&new_vm, &mentioned) } else { "RFail".to_string() };
+                run_parts.push(format!("({}%nat, [{}], {}, {})", vm_difficulty, init_coq, vm_coq(&old_vm, &mentioned), tgt));
+            }
             if let Err(p) = r_new { out.oracle_fail.push(format!("compiled code panics in the VM ({}) where the source does not", p)); break; }
             let mut bad = vec![];
             let mut value_diff = false;
@@ -575,8 +589,26 @@ fn run_case(cfg: &Config, text: &str, rng: &mut Rng, nvals: usize) -> Outcome {
             }
             if !bad.is_empty() { out.oracle_fail.push(format!("source and compiled code behave differently: {}", bad.join("; "))); break; }
         }
+        if let (Some(stmts_coq), false) = (&stmts_coq, run_parts.is_empty()) {
+            out.run_case = Some(format!("KRun {} {} [{}]", cfg_coq, stmts_coq, run_parts.join("; ")));
+        }
     }
     out
+}
+
+fn value_coq(v: &ScalarValue) -> String {
+    match v {
+        ScalarValue::Int(x) => format!("VInt {}", z(*x as i64)),
+        ScalarValue::Float(x) => format!("VFloat {}", fbits(*x)),
+        ScalarValue::String(_) => "VStr []".to_string(),
+    }
+}
+/// final state of a VM as a Coq term: time, real time, instruction log (oldest first), observed registers
+fn vm_coq(vm: &AstVm, regs: &[i32]) -> String {
+    let log: Vec<String> = vm.instr_log.iter().map(|c| format!("({}, {}, [{}])", z(c.real_time as i64), c.opcode,
+        c.args.iter().map(value_coq).collect::<Vec<_>>().join("; "))).collect();
+    let rs: Vec<String> = regs.iter().filter_map(|&r| vm.get_reg(RegId(r)).map(|v| format!("({}, {})", r, value_coq(&v)))).collect();
+    format!("(ROk (mkrr {} {} [{}] [{}]))", z(vm.time as i64), z(vm.real_time as i64), log.join("; "), rs.join("; "))
 }
 
 fn same_value(a: &ScalarValue, b: &ScalarValue) -> bool {
@@ -592,6 +624,7 @@ fn report(cfg: &Config, text: &str, o: &Outcome) {
     let flat = text.replace('\n', " ");
     for f in &o.oracle_fail { println!("ORACLE-FAIL\t{}\tcfgbits={}\t{}", f, cfg.bits, flat); }
     if let Some(c) = &o.case { println!("LOWER\t{}\tcfgbits={} {}", c, cfg.bits, flat); }
+    if let Some(c) = &o.run_case { println!("RUN\t{}\tcfgbits={} {}", c, cfg.bits, flat); }
 }
 
 fn main() {
